@@ -477,6 +477,41 @@ func readersState(j *jobCtx, rr *readersRun, x Inst, ops []readOp, reps, per int
 		pure       bool
 	}
 	var done []pairRes
+	// A STORM first: every read-only operation at once, one goroutine each ("any number of goroutines"), released together,
+	// before anything else has touched the state.  Logged as pair events (operation i with operation i+1 of the same run).
+	var storm *pairRes
+	if len(ops) >= 3 {
+		fp0 := fullFP(x)
+		rr.newRaces()
+		res := make([][]string, len(ops))
+		pan := make([]bool, len(ops))
+		ci := invoke(skeletonRd(x, "storm", "storm"), func() {
+			var wg sync.WaitGroup
+			start := make(chan struct{})
+			for g := range ops {
+				wg.Add(1)
+				go func(g int) {
+					defer wg.Done()
+					defer func() {
+						if recover() != nil {
+							pan[g] = true
+						}
+					}()
+					<-start
+					for r := 0; r < reps; r++ {
+						res[g] = append(res[g], fmt.Sprint(ops[g].f()))
+					}
+				}(g)
+			}
+			close(start)
+			wg.Wait()
+		})
+		anyPan := ci.Panic
+		for _, p := range pan {
+			anyPan = anyPan || p
+		}
+		storm = &pairRes{0, 0, res, anyPan, ci.PMsg, ci.Out, rr.newRaces(), fp0 == fullFP(x)}
+	}
 	for a := 0; a < len(ops); a++ {
 		for b := a; b < len(ops); b++ {
 			e := Ev{"fam": "rd", "kind": x.Kind(), "op": "Pair", "a": ops[a].name, "b": ops[b].name}
@@ -541,6 +576,20 @@ func readersState(j *jobCtx, rr *readersRun, x Inst, ops []readOp, reps, per int
 			}
 		}
 		return len(rs) == reps
+	}
+	if storm != nil {
+		n := len(ops)
+		for i := range ops {
+			k := (i + 1) % n
+			e := skeletonRd(x, ops[i].name, ops[k].name)
+			e["sa"], e["sb"], e["readers"], e["reps"], e["storm"] = seq[i], seq[k], n, reps, true
+			e["panic"], e["pmsg"], e["out"] = storm.pan, storm.pmsg, storm.out
+			e["ra_ok"], e["rb_ok"] = same(storm.res[i], seq[i]), same(storm.res[k], seq[k])
+			e["ra"], e["rb"] = first(storm.res[i]), first(storm.res[k])
+			e["races"], e["pure"] = storm.races, storm.pure
+			emit(e)
+		}
+		distinct["rd|"+x.Kind()+"|storm"] = struct{}{}
 	}
 	for _, d := range done {
 		e := skeletonRd(x, ops[d.a].name, ops[d.b].name)
